@@ -134,6 +134,7 @@ func classes(cs *caseStats, profile string) (string, []string) {
 		add(m.RefundsChecked, "refund-credit-checked")
 		add(m.Measured, "block-value-measured")
 		add(m.Unmeasured, "finalisation-unmeasured")
+		add(m.FinalMeasured, "finalisation-distribution-measured")
 		add(m.Noise, "measurement-noise")
 		add(m.SnapshotDrift, "vote-with-power-changed-since-snapshot")
 		add(m.StrangerPublicOK, "public-expire-or-finalize-succeeded")
@@ -224,6 +225,15 @@ func TestC14(t *testing.T) {
 		})
 		key, cl := classes(cs, mode)
 		cl = append(cl, "flavour-"+flavour)
+		if f != nil && cs.mon != nil {
+			for _, id := range f.priority {
+				if p := cs.mon.Props[id]; p != nil {
+					cl = append(cl, "scenario-chained-updates:"+p.PathString())
+				} else {
+					cl = append(cl, "scenario-chained-updates:not-created")
+				}
+			}
+		}
 		ntKey := ""
 		if key != "" {
 			b, _ := json.Marshal(tr.Steps)
